@@ -111,6 +111,10 @@ WIT2 = (1, 1.0)                 # ... for every named parameter at once (typed k
 
 def veq(x, y):
     """equality of two bound values: atoms by the solver, concrete witnesses by value *and type*"""
+    if type(x) is tuple or type(y) is tuple:
+        if type(x) is not type(y) or len(x) != len(y):
+            return False
+        return And(*[veq(a, b) for a, b in zip(x, y)])
     if isinstance(x, Sym) or isinstance(y, Sym):
         return x == y
     return type(x) is type(y) and x == y
@@ -141,6 +145,8 @@ def gen_call(ctx, sh, defaults, free, tag, wit=None):
         return atom0(ArgSort, base)
 
     def extra_value(base):
+        if wit == 'typedx':
+            return WIT[ctx.choice(len(WIT), tag + 'wx')]          # equal values of different types as extra positionals
         if wit == 'names' and not free and _W.firstx:
             _W.firstx = False                    # the canonical call's first extra positional may be a keyword name
             j = ctx.choice(len(NAMEWIT) + 1, tag + 'nw')
@@ -170,6 +176,8 @@ def gen_call(ctx, sh, defaults, free, tag, wit=None):
     if sh['varargs'] and p == npos:
         ne = ctx.choice(3, tag + 'ne')
         extras = tuple(extra_value(tag + 'e') for _ in range(ne))
+        if wit == 'tuple' and not free and ne == 2 and ctx.bool(tag + 'tup'):
+            extras = (extras,)                  # one extra positional that is the tuple of two values: f((u, v)) is not f(u, v)
         args.extend(extras)
     for i in range(sh['nkwo']):
         n = KWO[i]
@@ -537,7 +545,12 @@ class Keys:
                 pass
             f = inst.f
         callsh = sh
-        if cfg.get('partial') and sh['nkwo']:
+        if cfg.get('partial') == 'extra' and sh['varkw']:
+            # functools.partial(f, p=<value>) where p is not a declared parameter: it arrives in **kw unless the call overrides it
+            import functools
+            self._pfixed = ctx.atom(ArgSort, 'PX')
+            f = functools.partial(f, **{XKW[0]: self._pfixed})
+        elif cfg.get('partial') and sh['nkwo']:
             # the cached callable is functools.partial(f, k=<value>): k behaves like a parameter whose default is that value
             import functools
             kn = KWO[sh['nkwo'] - 1]
@@ -600,6 +613,9 @@ class Keys:
                        'shape_class': shape_class, 'diagnosed': diag})
             return
         B = gen_call(ctx, callsh, defaults, False, 'B', wit=cfg.get('wit'))
+        if cfg.get('partial') == 'extra' and sh['varkw']:
+            for C_ in (A, B):                       # what the partial pre-bound is part of the binding unless the call overrides it
+                C_.xkw.setdefault(XKW[0], self._pfixed)
         kB = keyf(*(selfB + B.args), **B.kw)
         keq = bool(kA == kB)
         beq = binding_eq(sh, spec, A, B)
@@ -624,6 +640,10 @@ class Keys:
             lab = 'C11:merges' if ign else 'C09:canonical'
             if lab.split(':')[0] in props:
                 kind = 'equivalent calls get different keys'
+                if cfg.get('partial') == 'extra' and '**' in spec and ((XKW[0] in A.kw) != (XKW[0] in B.kw)):
+                    # known: an extra keyword pre-bound by functools.partial stays in the key unless the call overrides it
+                    kind = "ignore='**' keeps an extra keyword that functools.partial pre-bound when the call does not override it"
+                    info = {'A': A.desc, 'B': B.desc, 'diagnosed': True}
                 if cfg['keymap'] in ('str', 'picklenf', 'md5nf'):
                     # diagnose: is the only difference the insertion order of the keyword dict in the non-flat key?
                     from klepto._inspect import _keygen
@@ -834,6 +854,13 @@ def plan(prop, tier):
                 add(sh, 'rawsent', bound=True)          # the cached callable is a bound method
             if sh['nkwo'] and (not q or sh['npos'] <= 1):
                 add(sh, 'rawsent', partial=True)        # the cached callable is functools.partial(f, k=value)
+            if sh['varkw'] and sh['npos'] <= 2 and not sh['nkwo']:
+                add(sh, 'rawsent', partial='extra')     # ... or partial(f, p=value) with p an extra keyword
+            if sh['varargs'] and prop == 'C10' and sh['npos'] == 0 and not sh['nkwo']:
+                for km in ('rawsent', 'strflat', 'raw'):
+                    add(sh, km, wit='tuple')            # f((u, v)) vs f(u, v)
+                for km in ('rawtyped', 'strtyped', 'md5typed'):
+                    add(sh, km, wit='typedx')           # f(1) vs f(True) vs f(1.0) as extra positionals under typed keymaps
             # equal values of different types in every parameter: typed / repr-based keymaps must keep the bindings apart
             if 1 <= sh['npos'] + sh['nkwo'] <= 2 and not sh['varargs'] and not sh['varkw']:
                 for km in ('rawtyped', 'strtyped', 'strflat', 'md5typed'):
@@ -855,6 +882,8 @@ def plan(prop, tier):
                     add(sh, 'rawsent', ignore=list(spec), bare=True)
                 if any(isinstance(x, str) and x not in ('*', '**') for x in spec) and not heavy:
                     add(sh, 'rawsent', ignore=list(spec), shifted=True)
+                if '**' in spec and sh['varkw'] and sh['npos'] <= 2 and not sh['nkwo'] and len(spec) <= 2:
+                    add(sh, 'rawsent', ignore=list(spec), partial='extra')
             # methods: 'self' ignored by name, alone and together with names, '*' and '**'
             if sh['npos'] <= 2 and (q is False or (sh['nkwo'] == 0 and not (sh['varargs'] and sh['varkw'] and sh['npos'] > 1))):
                 mspecs = [('self',)] + [('self', POS[i]) for i in range(sh['npos'])]
